@@ -210,7 +210,7 @@ def flipped_with(ff, v, cond, neg_when_true):
     return False
 
 
-def r1_witnesses(tier):
+def r1_witnesses(tier, only_conversions=False):
     W = irw.IRW("c15", groups.PRELUDE + "#include <Eigen/Geometry>\n", chunk=6)
     gs = [g for g in groups.catalogue(tier) if g.scalar == "double" or tier == "thorough"]
     out = []
@@ -230,7 +230,7 @@ def r1_witnesses(tier):
                 cells += wcells(m, base + off)
                 off += m.rep
         return cells
-    for g in gs:
+    for g in ([] if only_conversions else gs):
         wc = wcells(g)
         if not wc:
             continue
@@ -269,9 +269,10 @@ def r1_witnesses(tier):
     return W
 
 
-def check_r1(rep, tier):
-    rep.rule("R1", "every produced q_w cell is |v| by construction, a verbatim copy of an input q_w, or a constant >= 0; xyz flipped with it", minimum=30)
-    W = r1_witnesses(tier)
+def check_r1(rep, tier, only_conversions=False):
+    rep.rule("R1", "every produced q_w cell is |v| by construction, a verbatim copy of an input q_w, or a constant >= 0; xyz flipped with it",
+             minimum=8 if only_conversions else 30)
+    W = r1_witnesses(tier, only_conversions)
     facts = W.build()
     rep.unit("%d canonical-sign witnesses" % len(W.wits))
     for fname, (ff, meta, mod) in sorted(facts.items()):
